@@ -8,6 +8,7 @@ import (
 	"go/ast"
 	"go/token"
 	"go/types"
+	"os"
 	"regexp"
 	"sort"
 	"strings"
@@ -35,19 +36,19 @@ type Obligation struct {
 }
 
 type FnVC struct {
-	g           *Gen
-	fn          *ssa.Function
-	ct          *Contract
-	log         []*Term
-	obs         []*Obligation
-	unsupported []string
-	assumedExt  map[string]bool
-	usedCt      map[string]bool
-	nameCount   map[string]int
-	ords        map[ssa.Instruction]string
-	loopOrd     map[*ssa.BasicBlock]int
-	inlineDepth int
-	canaries    []*Obligation
+	g               *Gen
+	fn              *ssa.Function
+	ct              *Contract
+	log             []*Term
+	obs             []*Obligation
+	unsupported     []string
+	assumedExt      map[string]bool
+	usedCt          map[string]bool
+	nameCount       map[string]int
+	ords            map[ssa.Instruction]string
+	loopOrd         map[*ssa.BasicBlock]int
+	inlineDepth     int
+	canaries        []*Obligation
 	explicitAssumes []string
 }
 
@@ -183,8 +184,9 @@ func GenerateVC(g *Gen, fn *ssa.Function, ct *Contract) (vc *FnVC) {
 	fr := vc.newFrame(fn, "", true)
 	st := NewState()
 	// parameters
-	env := &Env{g: g, vars: map[string]*Term{}, st: st, where: ct.Source}
+	env := &Env{g: g, vars: map[string]*Term{}, st: st, where: ct.Source, params: map[string]bool{}}
 	for _, p := range fn.Params {
+		env.params[p.Name()] = true
 		t := Const("p_"+smtName(p.Name()), g.sortOf(p.Type()))
 		t.Ty = p.Type()
 		fr.vals[p] = t
@@ -269,6 +271,22 @@ func GenerateVC(g *Gen, fn *ssa.Function, ct *Contract) (vc *FnVC) {
 			panic(&exprError{err.Error()})
 		}
 		vc.assume(t)
+	}
+	// HEAP-CLOSED: references stored inside the heap at function entry refer to cells that exist at entry
+	// (references are only ever created by allocation, so this holds in every reachable state)
+	if _, hasOM := g.spec.Funs["omVal"]; hasOM {
+		top0 := fr.entry.Get(g, "heapTop")
+		r, i := Const("?r", SInt), Const("?i", SInt)
+		m0 := fr.entry.Get(g, "Mem:OMap")
+		val := App("omVal", SVal, Select(m0, r), i)
+		vc.assume(Forall([]*Term{r, i}, Implies(Le(r, top0), And(
+			Implies(tester("VMap", val), And(Lt(IntLit(0), mk("mv", SInt, val)), Le(mk("mv", SInt, val), top0))),
+			Implies(tester("VArr", val), Le(mk("sbase", SInt, mk("av", SSlice, val)), top0)))), val))
+		a0 := fr.entry.Get(g, "Arr:Val")
+		cell := Select(Select(a0, r), i)
+		vc.assume(Forall([]*Term{r, i}, Implies(Le(r, top0), And(
+			Implies(tester("VMap", cell), And(Lt(IntLit(0), mk("mv", SInt, cell)), Le(mk("mv", SInt, cell), top0))),
+			Implies(tester("VArr", cell), Le(mk("sbase", SInt, mk("av", SSlice, cell)), top0)))), cell))
 	}
 	vc.canary("entry", True)
 	fr.run(st)
@@ -359,6 +377,9 @@ func findLoops(fn *ssa.Function) map[*ssa.BasicBlock]*loopInfo {
 	sort.Slice(hs, func(i, j int) bool { return loopPos(loops[hs[i]]) < loopPos(loops[hs[j]]) })
 	for i, h := range hs {
 		loops[h].ord = i + 1
+		if os.Getenv("GOVC_DEBUG") != "" {
+			fmt.Fprintf(os.Stderr, "loop %d of %s: header block %d, first position %s\n", i+1, fn.Name(), h.Index, fn.Prog.Fset.Position(loopPos(loops[h])))
+		}
 	}
 	return loops
 }
@@ -709,6 +730,17 @@ func (fr *Frame) enterLoop(b *ssa.BasicBlock, li *loopInfo, st *State, reach *Te
 	if fr.top && len(vc.ct.Each[li.ord]) > 0 {
 		// per-iteration clauses claim something about every index: the loop must be a complete range loop
 		ok, why := rangeComplete(li)
+		if ok && vc.ct.Mandatory[li.ord] {
+			// the per-iteration clauses justify a statement about the whole array only if no return bypasses the loop
+			for _, b := range fr.fn.Blocks {
+				if len(b.Instrs) == 0 {
+					continue
+				}
+				if _, isRet := b.Instrs[len(b.Instrs)-1].(*ssa.Return); isRet && !li.header.Dominates(b) {
+					ok, why = false, fmt.Sprintf("a return (block %d, %s) is reached without going through the loop: the array is returned without every element having been visited", b.Index, vc.pos(b.Instrs[len(b.Instrs)-1].Pos()))
+				}
+			}
+		}
 		ob := &Obligation{Name: vc.fnName() + fmt.Sprintf("/loop%d/range-complete", li.ord), Fn: vc.fnName(), Kind: "loop-shape", Props: eachProps(vc.ct.Each[li.ord]), Backend: "ssa-shape",
 			Clause: "the loop is a range loop over the whole slice: index from 0 to len-1 in steps of 1, left only when the index reaches len (no break / return inside)", Pos: vc.ct.Source, Result: "unsat"}
 		if !ok {
@@ -910,8 +942,42 @@ func (fr *Frame) checkBackEdges(p *ssa.BasicBlock) {
 		if n := countBackEdges(h); n > 1 {
 			suffix = fmt.Sprintf("@b%d", backEdgeOrdinal(h, p))
 		}
+		// case splits: conditions over the values of the iteration that just finished
+		type caseCond struct {
+			name string
+			cond *Term
+		}
+		var cases []caseCond
+		if fr.top && len(vc.ct.Cases[li.ord]) > 0 {
+			term := p.Instrs[len(p.Instrs)-1]
+			var all []*Term
+			for _, cc := range vc.ct.Cases[li.ord] {
+				env := fr.env0.child()
+				env.st = fr.out[p]
+				env.where = cc.Line
+				env.old = fr.env0
+				env.resolveAddr = fr.allocRef
+				env.resolve = func(name string) (*Term, bool) { return fr.resolveIter(name, term, fr.out[p]) }
+				t, err := env.Parse(cc.Expr)
+				if err != nil {
+					panic(&exprError{err.Error()})
+				}
+				ct := vc.define("case_"+cc.Label, t)
+				cases = append(cases, caseCond{cc.Label, ct})
+				all = append(all, ct)
+			}
+			cases = append(cases, caseCond{"other", Not(Or(all...))})
+		}
 		for _, c := range fr.invariants(li) {
 			goal := fr.evalInvariant(c, h, phiB, fr.out[p])
+			if len(cases) > 0 && len(c.Props) > 0 && c.Label != "" && strings.HasPrefix(c.Label, "relation") {
+				// one obligation per case, so that a known finding in one case cannot mask a new violation in another
+				for _, cc := range cases {
+					vc.obligeNoAssume(fmt.Sprintf("loop%d/preserve:%s%s[%s]", li.ord, clauseLabel(c), suffix, cc.name), "inv-preserve", c.Props, c.Line, And(guard, cc.cond), goal, c.Expr)
+				}
+				vc.assume(Implies(guard, goal))
+				continue
+			}
 			vc.oblige(fmt.Sprintf("loop%d/preserve:%s%s", li.ord, clauseLabel(c), suffix), "inv-preserve", c.Props, c.Line, guard, goal, c.Expr)
 		}
 		// per-iteration clauses: evaluated in the state at the end of this iteration, over the values of this iteration
@@ -1043,10 +1109,42 @@ func (fr *Frame) resolveLocal(name string, h *ssa.BasicBlock, phis map[*ssa.Phi]
 			}
 		}
 	}
+	// several SSA values may carry the name (initial value, loop phis of enclosing loops, ...): the one that reaches the
+	// header is the one defined deepest in the dominator tree
+	var bestT *Term
+	var bestBlk *ssa.BasicBlock
+	bestIdx := -1
 	for _, v := range cands {
-		if t, ok := fr.evalPure(v, h, phis, 0); ok {
-			return t, true
+		t, ok := fr.evalPure(v, h, phis, 0)
+		if !ok {
+			continue
 		}
+		var blk *ssa.BasicBlock
+		idx := -1
+		if in, isIn := v.(ssa.Instruction); isIn {
+			blk = in.Block()
+			for k, x := range blk.Instrs {
+				if x == in {
+					idx = k
+				}
+			}
+		}
+		better := bestT == nil
+		if !better && blk != nil {
+			if bestBlk == nil {
+				better = true
+			} else if blk == bestBlk {
+				better = idx > bestIdx
+			} else if bestBlk.Dominates(blk) {
+				better = true
+			}
+		}
+		if better {
+			bestT, bestBlk, bestIdx = t, blk, idx
+		}
+	}
+	if bestT != nil {
+		return bestT, true
 	}
 	// 3. address-taken local
 	for _, b := range fr.fn.Blocks {
@@ -1286,24 +1384,36 @@ func (vc *FnVC) obligeNoAssume(name, kind string, props []string, pos string, gu
 func (fr *Frame) resolveIter(name string, at ssa.Instruction, st *State) (*Term, bool) {
 	var best ssa.Value
 	var bestPos token.Pos = -1
-	for _, b := range fr.fn.Blocks {
-		for _, in := range b.Instrs {
-			d, ok := in.(*ssa.DebugRef)
-			if !ok || d.IsAddr {
+	// innermost loop that contains the latch: names declared inside it win over same-named locals of other loops
+	var body map[*ssa.BasicBlock]bool
+	for _, li := range fr.loops {
+		if li.body[at.Block()] && (body == nil || len(li.body) < len(body)) {
+			body = li.body
+		}
+	}
+	for pass := 0; pass < 2 && best == nil; pass++ {
+		for _, b := range fr.fn.Blocks {
+			if pass == 0 && (body == nil || !body[b]) {
 				continue
 			}
-			id, ok := d.Expr.(*ast.Ident)
-			if !ok || id.Name != name {
-				continue
-			}
-			if _, have := fr.vals[d.X]; !have {
-				if _, isConst := d.X.(*ssa.Const); !isConst {
+			for _, in := range b.Instrs {
+				d, ok := in.(*ssa.DebugRef)
+				if !ok || d.IsAddr {
 					continue
 				}
-			}
-			// the defining occurrence (declaration) is the one we want: smallest position
-			if p := id.Pos(); bestPos < 0 || p < bestPos {
-				best, bestPos = d.X, p
+				id, ok := d.Expr.(*ast.Ident)
+				if !ok || id.Name != name {
+					continue
+				}
+				if _, have := fr.vals[d.X]; !have {
+					if _, isConst := d.X.(*ssa.Const); !isConst {
+						continue
+					}
+				}
+				// the defining occurrence (declaration) is the one we want: smallest position
+				if p := id.Pos(); bestPos < 0 || p < bestPos {
+					best, bestPos = d.X, p
+				}
 			}
 		}
 	}
